@@ -1,5 +1,6 @@
 """Per-property check plans: which TLC model-checking runs and which
 conformance traces (driver + trace specification) decide each property."""
+import json
 import random
 from core import MC, Shard
 import drv_calendar
@@ -16,6 +17,7 @@ import drv_sun
 import drv_orbit
 import drv_kepler
 import drv_earth
+import drv_sphere
 
 YMIN, YMAX = -4712, 6000
 
@@ -589,4 +591,28 @@ def plan_C18(tier, seed):
                      "the Simpson integral and the haversine central angle are computed by the harness (comparison in the spec)"])
 
 
-PLANS = {"C18": plan_C18, "C11": plan_C11, "C07": plan_C07, "C14": plan_C14, "C15": plan_C15, "C13": plan_C13, "C12": plan_C12, "C17": plan_C17, "C02": plan_C02, "C03": plan_C03, "C04": plan_C04, "C10": plan_C10, "C01": plan_C01, "C16": plan_C16, "C19": plan_C19}
+def _nt_c05(ev):
+    return (ev["k"], json.dumps(ev["in"]))
+
+
+def plan_C05(tier, seed):
+    T = ("Trace_Sphere", "Trace.cfg")
+    nc, ns, per = (8, 6, 220) if tier == "quick" else (32, 32, 4000)
+    sh = [Shard("conv_%02d" % i, drv_sphere.gen_conv, dict(seed=seed, shard=i, n=per), *T) for i in range(nc)]
+    sh += [Shard("sep_%02d" % i, drv_sphere.gen_sep, dict(seed=seed, shard=i, n=per * 2), *T) for i in range(ns)]
+    return dict(
+        mc=[MC("MC_Octa", "MC_Octa.cfg", workers=8, heap="2g", note="rotation operators on the 26 lattice directions x quarter turns")],
+        shards=sh, level="model_checking", exhaustive=False, nontrivial=_nt_c05,
+        rule="Directions: fixed set (poles, equator, 0/360 seam, near-pole) + uniform on the sphere + polar caps down to 1e-7 deg + "
+             "seam neighbourhoods; obliquity 0..30 (incl. 0, 23.439, 30), latitude -90..90 (incl. 0, +-90). For each direction the "
+             "three conversion pairs are applied forwards and backwards in both orders; TLC checks on unit-vector witnesses that "
+             "the forward map equals the rotation of Sphere.tla (x-axis rotation by the obliquity; horizon rotation by the "
+             "colatitude; for the galactic pair: the linear map defined by the library's own images of the three axes, verified "
+             "orthonormal and right-handed), that the pair is mutually inverse to 1e-9 deg (scaled chords), ranges, galactic pole. "
+             "Separation (chord form, well conditioned from 1e-7 to 179.999 deg), symmetry, position angle against the tangent "
+             "plane projection (>= 0.05 deg), enclosing circle between the largest separation and 2/sqrt(3) of it.",
+        assumptions=["position angles are judged for separations >= 0.05 deg: below that the float resolution of the input right ascensions exceeds 1e-9 deg of position angle",
+                     "antisymmetry of the position angle is not asserted (it is not exact on the sphere)"])
+
+
+PLANS = {"C05": plan_C05, "C18": plan_C18, "C11": plan_C11, "C07": plan_C07, "C14": plan_C14, "C15": plan_C15, "C13": plan_C13, "C12": plan_C12, "C17": plan_C17, "C02": plan_C02, "C03": plan_C03, "C04": plan_C04, "C10": plan_C10, "C01": plan_C01, "C16": plan_C16, "C19": plan_C19}
